@@ -3339,6 +3339,10 @@ class C10(Prop):
         # (4) Graphemes
         galpha = [97, 13, 10, 0x301, 0x200D, 0x1F468, 0x1F1FA, 0x1F1F8, 0x1100, 0x1161, 233]
         lines.append(f'GR g{n} I ' + inputs_all(3 if tier == 'quick' else 4, galpha))
+        # the classes on which extended and legacy clusters differ (spacing marks, prepended characters), a conjunct-forming
+        # virama, precomposed Hangul syllables with a trailing consonant, a pictograph for ZWJ sequences, a control
+        galpha2 = [0x915, 0x93F, 0xE33, 0x600, 0x94D, 0xAC00, 0x11A8, 0x2764, 0x200D, 0x301, 97, 1]
+        lines.append(f'GR g{n + 1} I ' + inputs_all(3 if tier == 'quick' else 4, galpha2))
         return lines
 
     def group_of(self, line):
